@@ -3,6 +3,8 @@ package main
 import (
 	"bytes"
 	"fmt"
+	"os"
+	"os/exec"
 	"strings"
 
 	helpers "github.com/SKAARHOJ/rawpanel-lib"
@@ -108,20 +110,105 @@ func textFromArgs(a []string) (t *rwp.HWCText, w, h, shrink, border int) {
 	return
 }
 
+// the same state in the two other font faces (0: 5x7, 1: 8x8, 2: 5x5; faces 0 and 2 share the glyph cell width, faces 0
+// and 1 the cell height), proportional: what a glyph-metric memo keyed too coarsely would confuse the state's own faces with
+func otherFonts(t *rwp.HWCText) []*rwp.HWCText {
+	out := []*rwp.HWCText{}
+	for k := 1; k <= 2; k++ {
+		b := proto.Clone(t).(*rwp.HWCText)
+		if b.TextStyling == nil {
+			b.TextStyling = &rwp.HWCText_TextStyle{}
+		}
+		if b.TextStyling.TextFont == nil {
+			b.TextStyling.TextFont = &rwp.HWCText_TextStyle_Font{}
+		}
+		if b.TextStyling.TitleFont == nil {
+			b.TextStyling.TitleFont = &rwp.HWCText_TextStyle_Font{}
+		}
+		shift := func(f *rwp.HWCText_TextStyle_Font) {
+			face := int(f.FontFace & 7)
+			if face > 2 {
+				face = 0 // SetFont's default case
+			}
+			f.FontFace = rwp.HWCText_TextStyle_Font_FontFaceE((face + k) % 3)
+		}
+		shift(b.TextStyling.TextFont)
+		shift(b.TextStyling.TitleFont)
+		b.TextStyling.FixedWidth = false
+		out = append(out, b)
+	}
+	return out
+}
+
+// the first rendering of the record's state in a fresh process (the harness re-executes itself on this one record):
+// returns the tokens "A pixelColour backgroundColour" of the child's output
+func tileFreshProcess(a []string) string {
+	exe, err := os.Executable()
+	if err != nil {
+		return "child:" + err.Error()
+	}
+	cmd := exec.Command(exe, "c18", "-replay", "/dev/stdin")
+	cmd.Stdin = strings.NewReader("tile.render " + strings.Join(a, " ") + "\n")
+	cmd.Env = append(os.Environ(), "VERIF_TILE_CHILD=1")
+	o, err := cmd.Output()
+	if err != nil {
+		return "child:" + strings.ReplaceAll(err.Error(), " ", "_")
+	}
+	line := strings.TrimSpace(string(o))
+	i := strings.Index(line, " | ")
+	if i < 0 {
+		return "child:no-output"
+	}
+	f := strings.Fields(line[i+3:])
+	if len(f) < 5 {
+		return "child:" + strings.Join(f, "_")
+	}
+	return f[2] + " " + f[3] + " " + f[4]
+}
+
 func (e *tileExec) Exec(cmd string, a []string) string {
 	res := ""
 	p := guarded(func() {
 		switch cmd {
 		case "tile.render":
+			// args: the 19 state/geometry tokens + optional flags "also print the RGB565 export", "compare with a fresh process"
+			rgb := len(a) > 19 && a[19] == "1"
+			fresh := len(a) > 20 && a[20] == "1" && os.Getenv("VERIF_TILE_CHILD") == ""
 			t, w, h, shrink, border := textFromArgs(a)
 			t2 := proto.Clone(t).(*rwp.HWCText)
 			t3 := proto.Clone(t).(*rwp.HWCText)
 			t3.Inverted = !t3.Inverted
+			vs := otherFonts(t)
+			vs2 := otherFonts(t)
+			if fresh {
+				// warm the process with the other font faces first: state A must still render as in a fresh process
+				for _, v := range otherFonts(t) {
+					helpers.WriteDisplayTileNew(v, w, h, shrink, border)
+				}
+			}
+			// order A, B, C, A, B, C (B, C = the same state in the other two font faces): a glyph-metric memo keyed too coarsely
+			// and overwritten makes the second A, B or C differ from the first
 			img := helpers.WriteDisplayTileNew(t, w, h, shrink, border)
+			imgB := helpers.WriteDisplayTileNew(vs[0], w, h, shrink, border)
+			imgC := helpers.WriteDisplayTileNew(vs[1], w, h, shrink, border)
 			img2 := helpers.WriteDisplayTileNew(t2, w, h, shrink, border)
+			imgB2 := helpers.WriteDisplayTileNew(vs2[0], w, h, shrink, border)
+			imgC2 := helpers.WriteDisplayTileNew(vs2[1], w, h, shrink, border)
 			img3 := helpers.WriteDisplayTileNew(t3, w, h, shrink, border)
-			det := bytes.Equal(img.GetImgSlice(), img2.GetImgSlice()) && bytes.Equal(img.GetImgSliceRGB(), img2.GetImgSliceRGB())
-			res = fmt.Sprintf("%d %d %s %d %d %s %s", img.Width, img.Height, hx(img.GetImgSlice()), img.OLEDPixelColor, img.OLEDBckgColor, hx(img3.GetImgSlice()), b01(det))
+			det := bytes.Equal(img.GetImgSlice(), img2.GetImgSlice()) && bytes.Equal(img.GetImgSliceRGB(), img2.GetImgSliceRGB()) &&
+				img.OLEDPixelColor == img2.OLEDPixelColor && img.OLEDBckgColor == img2.OLEDBckgColor &&
+				bytes.Equal(imgB.GetImgSlice(), imgB2.GetImgSlice()) && bytes.Equal(imgC.GetImgSlice(), imgC2.GetImgSlice())
+			if fresh {
+				mine := fmt.Sprintf("%s %d %d", hx(img.GetImgSlice()), img.OLEDPixelColor, img.OLEDBckgColor)
+				det = det && tileFreshProcess(a) == mine
+			}
+			rgbTok := "~"
+			if rgb {
+				rgbTok = hx(img.GetImgSliceRGB())
+			}
+			// the argument after the call (the renderer fills absent sub-messages of its argument)
+			post := strings.Join(argStrings(tileArgs(t, w, h, shrink, border)[4:]), ";")
+			res = fmt.Sprintf("%d %d %s %d %d %s %s %s %s %d", img.Width, img.Height, hx(img.GetImgSlice()), img.OLEDPixelColor, img.OLEDBckgColor, hx(img3.GetImgSlice()), b01(det), post, rgbTok, img.LineHeight())
 		case "tile.bar":
 			v2 := atoi(a[0])
 			t, w, h, shrink, border := textFromArgs(a[1:])
@@ -254,13 +341,21 @@ func randTileText(r *Rng) *rwp.HWCText {
 }
 
 func randGeom(r *Rng, tier string) (w, h, shrink, border int) {
-	switch r.Intn(10) {
+	switch r.Intn(12) {
 	case 0:
 		w, h = r.Pick(0, 1, 7, 8, 9), r.Pick(0, 1, 5, 8)
 	case 1:
 		w, h = 256, r.Pick(20, 32, 64)
 	case 2, 3, 4:
 		w, h = r.Pick(64, 64, 48, 52, 96, 112, 128), r.Pick(32, 32, 24, 38, 48, 64)
+	case 5:
+		// beyond the documented 256x64: the theorems hold for every size
+		w, h = r.Pick(257, 260, 300, 320), r.Pick(65, 72, 96, 100)
+		if r.Chance(50) {
+			w = r.Range(0, 130)
+		} else {
+			h = r.Range(0, 64)
+		}
 	default:
 		w, h = r.Range(0, 130), r.Range(0, 64)
 	}
@@ -269,6 +364,24 @@ func randGeom(r *Rng, tier string) (w, h, shrink, border int) {
 	}
 	shrink = r.Intn(4)
 	border = r.Pick(0, 0, 0, 1, 2, 3)
+	// the theorems cover every integer shrink / border (only the two low bits of shrink are read; a border that eats
+	// the whole tile, or a negative one, leaves an empty or shifted bounding box)
+	switch r.Intn(12) {
+	case 0:
+		shrink = r.Pick(-1, -2, -3, 4, 5, 6, 7, 255, 1<<31, -(1 << 31))
+	case 1:
+		border = r.Pick(4, 5, 8, 12, 16, 31, 32, 33, 64, 100, 1000)
+	case 2:
+		border = r.Pick(-1, -2, -3, -8, -100)
+	case 3:
+		if w > 0 && h > 0 { // border around half the smaller side: active area empty or one pixel
+			m := w
+			if h < m {
+				m = h
+			}
+			border = m/2 + r.Pick(-1, 0, 0, 1)
+		}
+	}
 	return
 }
 
@@ -277,7 +390,8 @@ func genC18(r *Rng, n int, tier string) {
 		t := randTileText(r)
 		w, h, shrink, border := randGeom(r, tier)
 		if r.Chance(12) {
-			// bar monotonicity pair: scale type 1, value hidden, v1 <= v2, range > 0
+			// bar monotonicity pair: scale type 1, v1 <= v2, range > 0, value text unchanged (hidden, or a float format whose
+			// printed digits do not change between v1 and v2); pair mode, icons, title, labels, fonts are random
 			lo := int32(r.Range(-500, 500))
 			hi := lo + int32(r.Range(1, 3000))
 			big := r.Chance(30) // very large ranges / values: (value-low)*width exceeds 32 bits
@@ -286,13 +400,26 @@ func genC18(r *Rng, n int, tier string) {
 				hi = lo + int32(r.Pick(2000000000, 40000000, 1000000000))
 			}
 			t.Formatting = 7
-			t.PairMode = 0
+			if r.Chance(50) {
+				t.PairMode = 0
+			}
 			t.Scale = &rwp.HWCText_ScaleM{ScaleType: 1, RangeLow: lo, RangeHigh: hi, LimitLow: lo, LimitHigh: hi}
+			if r.Chance(30) {
+				t.Scale.LimitLow, t.Scale.LimitHigh = lo+int32(r.Range(-10, 300)), hi-int32(r.Range(-10, 300))
+			}
 			v1 := lo + int32(r.Range(-20, 3100))
 			v2 := v1 + int32(r.Range(0, 600))
 			if big {
 				v1 = lo + int32(r.Range(0, 100)*1000000)
 				v2 = v1 + int32(r.Range(0, 60)*1000000)
+			}
+			if !big && r.Chance(35) {
+				// visible value whose text is the same at v1 and v2
+				f := r.Pick(1, 8, 9, 12)
+				v2 = v1 + int32(r.Range(0, 12))
+				if tileValueText(f, v1) == tileValueText(f, v2) {
+					t.Formatting = rwp.HWCText_FormattingE(f)
+				}
 			}
 			t.IntegerValue = v1
 			args := append([]interface{}{v2}, tileArgs(t, w, h, shrink, border)...)
@@ -322,7 +449,34 @@ func genC18(r *Rng, n int, tier string) {
 				}
 			}
 			w, h = r.Pick(64, 96, 112, 128), r.Pick(32, 48, 64)
+			if r.Chance(25) {
+				// around the vertical-fit boundary (line height 6..32 against the active height) and narrow tiles
+				// (texts wider than the active area): the clause must hold where its guard holds, on either side
+				h = r.Range(2, 34)
+				if r.Chance(40) {
+					w = r.Range(4, 40)
+				}
+			}
 		}
-		emit("tile.render", tileArgs(t, w, h, shrink, border)...)
+		// every 6th state (and every small tile) also prints the RGB565 export (GetImgSliceRGB)
+		rgb := w*h <= 256 || r.Chance(16)
+		// every 12th state is also rendered by a fresh process (after the other font faces were rendered in this one)
+		fresh := r.Chance(8)
+		emit("tile.render", append(tileArgs(t, w, h, shrink, border), rgb, fresh)...)
 	}
+}
+
+// the text the renderer prints for the float formats (used only to pick bar pairs whose value text does not change)
+func tileValueText(f int, v int32) string {
+	switch f {
+	case 1:
+		return fmt.Sprintf("%1.2f", float64(v)/1000)
+	case 8:
+		return fmt.Sprintf("%1.3f", float64(v)/1000)
+	case 9:
+		return fmt.Sprintf("%1.2f", float64(v)/100)
+	case 12:
+		return fmt.Sprintf("%1.1f", float64(v)/10)
+	}
+	return ""
 }
